@@ -32,11 +32,20 @@ def set_module_by_name(parent_module, name, child_module):
 
 def quantize(model, modules=None, **kwargs):
     # Quantization happens in-place
-    for name, m in model.named_modules():
+    quantized = {}
+    # A module can be registered under several names: each of them must lead to the same quantized module
+    for name, m in model.named_modules(remove_duplicate=False):
         if modules is not None and m not in modules:
+            continue
+        if m in quantized:
+            set_module_by_name(model, name, quantized[m])
+            continue
+        if any(m is qmodule for qmodule in quantized.values()):
+            # Quantized module reached again through a parent registered under several names
             continue
         qmodule = quantize_module(m, **kwargs)
         if qmodule is not None:
+            quantized[m] = qmodule
             set_module_by_name(model, name, qmodule)
             qmodule.name = name
             for name, param in m.named_parameters():
